@@ -3,7 +3,7 @@
    every run from the patterns of the current source tree and the prompt grammars of spec/prompts.py).
    This file contains only statements closed by [exact]. *)
 From Coq Require Import String.
-From Verif Require Import Bytes Regex RegexDeriv RegexDecide Regex_Proofs RegexSearch RegexSearch_Proofs Prompt Prompt_Proofs PromptCache PromptCache_Proofs.
+From Verif Require Import Bytes Regex RegexDeriv RegexDecide Regex_Proofs RegexSearch RegexSearch_Proofs Prompt Prompt_Proofs PromptCache PromptCache_Proofs PromptCacheObjs PromptCacheObjs_Proofs.
 From Gen Require Import Gen_PromptCache.
 
 (* the decision procedure: a validated closed certificate means NO byte string at all is accepted *)
@@ -46,6 +46,22 @@ Theorem C05_cache_transparent :
   snd (crun classify_opt gen_cap gen_update_clears_cache (mkC tbl []) ops) = cspec classify_opt tbl ops.
 Proof. exact (cache_transparent_from_empty (list level) (list string) classify_opt gen_cap). Qed.
 Print Assumptions C05_cache_transparent.
+
+(* SEVERAL driver objects alive in one process: functools.lru_cache on the method is ONE cache for the class (shared
+   capacity, cache_clear() of any object empties it for all); it is invisible on EVERY interleaved history of queries and
+   table updates of ANY number of objects because its key contains the object — read from the source on every run *)
+Theorem C05_cache_transparent_objects :
+  forall (tbls : list (list level)) (ops : list (mop (list level))),
+  snd (mrun classify_opt gen_keyed_by_self gen_cap gen_update_clears_cache (mkM tbls []) ops) = mspec classify_opt tbls ops.
+Proof. exact (objects_cache_transparent_from_empty (list level) (list string) classify_opt gen_cap). Qed.
+Print Assumptions C05_cache_transparent_objects.
+
+(* a memo whose key ignores the object hands object 1 the answer computed for object 0 *)
+Theorem C05_cache_shared_key_refuted :
+  snd (mrun toy_classify false 64 true (mkM [0%nat; 1%nat] []) [MQuery 0 [1]; MQuery 1 [1]])
+  <> mspec toy_classify [0%nat; 1%nat] [MQuery 0 [1]; MQuery 1 [1]].
+Proof. exact shared_key_refuted. Qed.
+Print Assumptions C05_cache_shared_key_refuted.
 
 Lemma C05_update_regenerates_pattern : gen_update_regenerates_pattern = true. Proof. reflexivity. Qed.
 Lemma C05_update_pushes_pattern : gen_update_pushes_pattern_to_channel = true. Proof. reflexivity. Qed.
